@@ -218,7 +218,8 @@ func PackOne(spec ProtoSpec, proto erpc.Proto, rw *RW, m Msg) (frame []byte, siz
 	for _, w := range rw.Writes[before:] {
 		frame = append(frame, w...)
 	}
-	if len(frame) == 0 {
+	if len(frame) == 0 && !spec.PerFrame {
+		// (a websocket sub-protocol frame of an all-default message is legitimately empty)
 		return nil, 0, fmt.Errorf("Pack wrote nothing")
 	}
 	return frame, msg.Size(), nil
